@@ -37,6 +37,11 @@ reads the `ServiceInfo` object -/
 theorem unregister_builds_goodbye : unregister_builds_goodbye_at_call = true := by
   simp [unregister_builds_goodbye_at_call]
 
+/-- D28 and its order: `async_update_service` / `async_register_service` encode the records once (raising to the caller) *before* the info
+reaches the registry -/
+theorem refused_before_registry : update_encodes_before_registry = true ∧ register_encodes_before_registry = true := by
+  simp [update_encodes_before_registry, register_encodes_before_registry]
+
 /-- `async_send` sends nothing once `done` -/
 theorem send_is_noop_eq (d : Bool) : send_is_noop d = d := by simp [send_is_noop]
 
